@@ -236,6 +236,12 @@ var ops = []cop{
 	{"SK.Sign(Schnorr, per-call reader)", true, func(e *env) []byte {
 		return errOr(e.SK.Sign(mc.Script{Src: "zero", Mode: "full", FailAfter: -1}.New(), e.msg, nil))
 	}, func(e *env) []byte { return e.schnorrSig }},
+	{"SK.Sign(Schnorr, another short message)", true, func(e *env) []byte {
+		return errOr(e.SK.Sign(mc.Script{Src: "zero", Mode: "full", FailAfter: -1}.New(), []byte("another message B"), nil))
+	}, func(e *env) []byte {
+		s, _ := ref.BIP340Sign(e.d, make([]byte, 32), []byte("another message B"))
+		return s
+	}},
 	{"SPK.Verify(Schnorr)", true, func(e *env) []byte { return bb(e.SPK.Verify(e.msg, e.schnorrSig)) }, func(e *env) []byte { return []byte{1} }},
 	{"h2c RO(dst,msg)", true, func(e *env) []byte {
 		p, err := h2c.Secp256k1_XMD_SHA256_SSWU_RO(e.dst, e.msg)
